@@ -121,3 +121,23 @@ Definition c12_pred (kind : N) (q : qarg) (names : list str) (before after : val
           end
       end
   end.
+
+(** known finding F29 (multidict 6.2.0 MultiDict.update, reached through update_query): when
+    two or more keys are updated and an earlier one loses old pairs, the positions recorded
+    for a later key are stale while the surplus old pairs are dropped, so old values of the
+    later key survive after its new ones.  Accepts exactly: every other pair kept in order,
+    and for each updated key the new values followed by a tail of its old values. *)
+Fixpoint is_tail_of (t l : list str) : bool :=
+  strs_eqb t l || match l with [] => false | _ :: r => is_tail_of t r end.
+Definition starts_with_then_tail (res new old : list str) : bool :=
+  strs_eqb (firstn (length new) res) new && is_tail_of (skipn (length new) res) old.
+
+Definition kf_f29 (kind : N) (q : qarg) (names : list str) (before after : val) : bool :=
+  match kind, obs_pairs before, obs_pairs after, spec_pairs kind q with
+  | 2, Some old, Some res, Ok (Some new) =>
+      let ks := arg_keys q new in
+      pairs_eqb (filter (fun p => negb (has_key ks p)) res) (filter (fun p => negb (has_key ks p)) old)
+      && forallb (fun k => starts_with_then_tail (values_of k res) (values_of k new) (values_of k old)) ks
+      && negb (update_ok ks old new res)
+  | _, _, _, _ => false
+  end.
